@@ -127,6 +127,20 @@ Section LoopVocab.
     | Panic => Panic
     end.
 
+  (* the same when reaching END is reported separately from the value (isEnd; a nil result is then a legal
+     value of an interface-typed output): (channels, created tasks, result, isEnd) *)
+  Definition calculate_next_tasks_end (cs : CS) (completed : list (N * tex))
+    : res (CS * list (N * V) * option V * bool) :=
+    match calculate_next_tasks cs completed with
+    | Ok (cs', next, result) => Ok (cs', next, result, match result with Some _ => true | None => false end)
+    | Err e => Err e
+    | Panic => Panic
+    end.
+
+  (* `return result, nil` behind `if isEnd`: the run is done with the value of END *)
+  Definition done_of (result : option V) : @sres V CS GS SCP SINFO :=
+    match result with Some v => Done v | None => Failed eChan end.
+
   (* r.handleInterrupt(ctx, before, after, nextTasks, cm.channels, …) *)
   Definition handle_interrupt (cs : CS) (gs : GS) (hb ha : list N) (next : list (N * V)) : @sres V CS GS SCP SINFO :=
     plain_interrupt cs gs next hb ha.
